@@ -57,7 +57,7 @@ impl Prop for C08T {
         "C08"
     }
     fn budget(&self, thorough: bool) -> u64 {
-        if thorough { 10_000_000 } else { 400_000 }
+        if thorough { 10_000_000 } else { 1_200_000 }
     }
     fn generate(&self, seed: u64, thorough: bool) -> Scenario {
         let mut rng = Rng::new(seed);
